@@ -319,7 +319,21 @@ def prove(goal: BoolSym, assumptions=(), extra_axioms=(), timeout_ms=None, use_c
             # the model interprets an axiomatised function freely: a candidate, not a counterexample
             return Result("unknown", "z3", dt, model=_model_dict(s.model(), atoms),
                           detail="sat modulo the axioms of " + ",".join(opaque) + " (candidate model only)")
-        return Result("refuted", "z3", dt, model=_model_dict(s.model(), atoms))
+        model = _model_dict(s.model(), atoms)
+        # for inequalities, look for a counterexample with a comfortable margin (robust native replay)
+        if goal.k[0] in ("le", "lt"):
+            res = to_z3(Sym._from_key(goal.k[1]), "real")
+            for margin in (1, z3.RealVal("1/100")):
+                s.push()
+                s.set("timeout", 5000)
+                s.add(res >= margin)
+                if s.check() == z3.sat:
+                    model = _model_dict(s.model(), atoms)
+                    model["_margin"] = str(margin)
+                    s.pop()
+                    break
+                s.pop()
+        return Result("refuted", "z3", dt, model=model)
     detail = s.reason_unknown()
     if use_cvc5:
         r2 = _cvc5(s.to_smt2())
